@@ -265,9 +265,9 @@ def query(ps, inp):
     except ValueError:
         return {"err": "ValueError", "rows": []}
     except Exception as ex:  # noqa: BLE001
-        return {"err": "%s: %s" % (type(ex).__name__, str(ex)[:160]), "rows": []}
+        return {"err": type(ex).__name__, "rows": [], "msg": str(ex)[:200]}
     if not isinstance(rows, list):
-        return {"err": "returned %s" % type(rows).__name__, "rows": []}
+        return {"err": "returned-" + type(rows).__name__, "rows": []}
     return {"err": "none", "rows": normalize(rows, inp["who"])}
 
 
@@ -283,7 +283,7 @@ def _key(f, pid, fd):
 def why(exp, got):
     out = []
     if got["err"] != exp["err"]:
-        out.append(("error", exp["err"], got["err"].split(":")[0]))
+        out.append(("error", exp["err"], got["err"]))
     adm = {}
     for g in exp["groups"]:
         for o in g["owners"]:
